@@ -29,15 +29,18 @@ Every block up to the tip (Lemmas/SnapChain.lean): `snapshot_every_block` — fo
 the height table `confOf` of the chain; `snapshot_every_block_ledger` — with the table the ledger model of C04 keeps
 (`ledgerConfH`, Lemmas/SnapLedger.lean), through C04's invariant `c_trunk`.
 
+`snapshot_canonical_form`: every node whose state is, key by key, "canonical chain state + pool applied in order" has
+the snapshot property at every block of its chain — the form C01 maintains.
+
 Reorganisations (Lemmas/SnapWalk.lean, through C01 `walk_canonical`): `snapshot_after_walk`,
-`snapshot_on_canonical_node`, `snapshot_common_ancestor_stable`.
+`snapshot_after_walk_ledger`, `snapshot_on_canonical_node`, `snapshot_common_ancestor_stable`.
 
 What is false: `snapshot_any_branch_statement` — a height table that reports, for a transaction confirmed on two
 branches, the block of the OTHER branch (`snapshot_any_branch_counterexample`, witness replayable on the
 implementation); `snapshot_any_branch_partial` names the missing hypothesis, which C04 `c_trunk` provides.
 
-Not covered here: `play` on a non-empty pool and `playForMiner` between B and the read (they need the commutation of
-independent transactions, as in C01).
+Not covered here: `play` on a non-empty pool and `playForMiner` between B and the read. They need the commutation of
+independent transactions, as in C01; once they are shown to keep the canonical form, `snapshot_canonical_form` applies.
 -/
 namespace XV.C18
 open XV.Chain XV.Snapshot
@@ -574,6 +577,30 @@ theorem snapshot_every_block_ledger (e : Env) (hids : EnvIds e) (g : St) (l1 l2 
   exact snapshot_chain_core e hids g l1 l2 _ hB pl S hg hvalid (ledgerConfH_main l e _ I hm) hlow hhigh p1 p2 p3
     key fuel hfuel
 
+/-- **every node in canonical form has the snapshot property at every block of its chain.** If the state shows, key
+by key, the replay of its chain `l1 ++ l2` from a base state without keys with its pool applied in order, chain and pool
+being runs of admitted transactions, then the snapshot at any split of the chain reads every key as the replay of `l1`
+does. This is the form C01 maintains (`walk_invariant`, `doTx_keeps_pool_form`, `play_invariant`); any further operation
+shown to keep it (`play` on a non-empty pool, `playForMiner`) inherits the snapshot property from here. -/
+theorem snapshot_canonical_form (e : Env) (hids : EnvIds e) (g : St) (l1 l2 : List Nat) (hB : Nat) (s : St)
+    (hg : ∀ key, curVer g key = none)
+    (hvalid : RunV e (chainTxs e (l1 ++ l2)) (curVer g))
+    (hlow : ∀ b ∈ l1, (e.block b).height ≤ hB) (hhigh : ∀ b ∈ l2, hB < (e.block b).height)
+    (hprun : RunV e s.pool (curVer (replayChain e (l1 ++ l2) g)))
+    (hs : ∀ key, curVer s key = curVer (applyPool e s.pool (replayChain e (l1 ++ l2) g)) key)
+    (key : String) (fuel : Nat) (hfuel : nWrites e (chainTxs e l2 ++ s.pool) key + 1 ≤ fuel) :
+    snapshotGet e s (confOf e (l1 ++ l2)) hB key fuel = curVer (replayChain e l1 g) key :=
+  snapshot_chain_confOf e hids g l1 l2 hB s.pool s key hg hvalid hlow hhigh rfl hprun
+    (funext fun k => by rw [hs k, applyPool_view]) fuel hfuel
+
+example : snapshotGet hEnv hNode' (confOf hEnv ([1, 2, 3] ++ [4])) 3 "k" 3 = curVer (replayChain hEnv [1, 2, 3] {}) "k" :=
+  snapshot_canonical_form hEnv (by decide) {} [1, 2, 3] [4] 3 hNode' (fun _ => rfl) (by decide) (by decide) (by decide)
+    (by decide)
+    (fun key => curVer_congr_tables _ _ key
+      (by rw [show hNode'.ZU = (applyPool hEnv hNode'.pool (replayChain hEnv ([1, 2, 3] ++ [4]) {})).ZU by decide])
+      (by rw [show hNode'.ZD = (applyPool hEnv hNode'.pool (replayChain hEnv ([1, 2, 3] ++ [4]) {})).ZD by decide]))
+    "k" 3 (by decide)
+
 -- ================================================================== reorganisations
 
 /-- **after a reorganisation the snapshot at any block of the new main chain — in particular at the common ancestor of
@@ -598,6 +625,27 @@ theorem snapshot_after_walk (e : Env) (hids : EnvIds e) (s : St) (lh : Int) (des
     snapshotGet e (walk e s lh dest prune).1 (confOf e (ancestors e (e.blocks.length + 1) dest))
       (e.block B).height key fuel = curVer (XV.C01.canon e g B) key :=
   snapshot_walk_core e hids s lh dest prune g hpl hok hinv hg hchain hpool hs hdchain honce B hB key fuel hfuel
+
+/-- **… with the height table the ledger keeps**: `ledgerConfH l` for a ledger that satisfies C04's invariant and stores
+the destination chain as its main chain (`LedgerMatches`) — no assumption on repeated transactions, C04 `c_trunk`
+says what is needed -/
+theorem snapshot_after_walk_ledger (e : Env) (hids : EnvIds e) (s : St) (lh : Int) (dest : Nat) (prune : Bool) (g : St)
+    (l : XV.Ledger.L) (I : XV.Ledger.LedgerInv l)
+    (hm : LedgerMatches l e (ancestors e (e.blocks.length + 1) dest))
+    (hpl : ParentLower e) (hok : (walk e s lh dest prune).2 = true) (hinv : KVInv e g)
+    (hg : ∀ key, curVer g key = none)
+    (hchain : XV.C01.ChainValid e (ancestors e (e.blocks.length + 1) s.pointer).reverse g)
+    (hpool : XV.C01.PoolValid e s.pool (XV.C01.canon e g s.pointer))
+    (hs : TRefines s (applyPool e s.pool (XV.C01.canon e g s.pointer)))
+    (hdchain : XV.C01.ChainValid e (ancestors e (e.blocks.length + 1) dest).reverse g)
+    (B : Nat) (hB : B ∈ ancestors e (e.blocks.length + 1) dest)
+    (key : String) (fuel : Nat)
+    (hfuel : (chainTxs e (ancestors e (e.blocks.length + 1) dest).reverse).length +
+      (walk e s lh dest prune).1.pool.length + 1 ≤ fuel) :
+    snapshotGet e (walk e s lh dest prune).1 (ledgerConfH l) (e.block B).height key fuel =
+      curVer (XV.C01.canon e g B) key :=
+  snapshot_walk_gen e hids s lh dest prune g _ hpl hok hinv hg hchain hpool hs hdchain
+    (ledgerConfH_main l e _ I hm) B hB key fuel hfuel
 
 /-- the same without a walk: on a node in canonical form the snapshot at any block `B` of the tip's chain is the
 live read of the canonical state of `B` -/
@@ -651,8 +699,8 @@ private def rEnv : Env := {
     (32, ⟨32, false, [], [], [⟨"k", some (31, 0)⟩], [⟨"k", "d", false⟩]⟩),
     (40, ⟨40, false, [], [], [⟨"k", some (21, 0)⟩], [⟨"k", "e", false⟩]⟩),
     (41, ⟨41, false, [], [], [⟨"j", none⟩], [⟨"j", "x", false⟩]⟩)],
-  blocks := [(1, ⟨1, none, 1, [10], "m"⟩), (2, ⟨2, some 1, 2, [20], "m"⟩), (3, ⟨3, some 2, 3, [21], "m"⟩),
-             (4, ⟨4, some 1, 2, [30], "m"⟩), (5, ⟨5, some 4, 3, [31], "m"⟩), (6, ⟨6, some 5, 4, [32], "m"⟩)] }
+  blocks := [(1, ⟨1, none, 0, [10], "m"⟩), (2, ⟨2, some 1, 1, [20], "m"⟩), (3, ⟨3, some 2, 2, [21], "m"⟩),
+             (4, ⟨4, some 1, 1, [30], "m"⟩), (5, ⟨5, some 4, 2, [31], "m"⟩), (6, ⟨6, some 5, 3, [32], "m"⟩)] }
 private def rNode : St := { applyPool rEnv [40, 41] (XV.C01.canon rEnv {} 3) with pool := [40, 41] }
 private def rThere : St := (walk rEnv rNode 0 6 false).1
 private def rBack : St := (walk rEnv rThere 0 3 false).1
@@ -674,19 +722,37 @@ example : ∀ p ∈ [(1, some (10, 0)), (2, some (20, 0)), (3, some (21, 0))],
 private theorem rPL : ParentLower rEnv := parentLower_of_blocks _ (by decide)
 private theorem rHs : TRefines rNode (applyPool rEnv rNode.pool (XV.C01.canon rEnv {} rNode.pointer)) :=
   (TRefines.refl _).of_tables ⟨rfl, rfl, rfl, rfl⟩ ⟨rfl, rfl, rfl, rfl⟩
-example : snapshotGet rEnv rThere (confOf rEnv (ancestors rEnv 7 6)) 1 "k" 9 = curVer (XV.C01.canon rEnv {} 1) "k" :=
+example : snapshotGet rEnv rThere (confOf rEnv (ancestors rEnv 7 6)) 0 "k" 9 = curVer (XV.C01.canon rEnv {} 1) "k" :=
   snapshot_after_walk rEnv (by decide) rNode 0 6 false {} rPL (by decide) (KVInv_empty rEnv {} rfl rfl)
     (fun _ => rfl) (chainValid_of_ok _ _ _ (by decide)) (poolValid_of_ok _ _ _ (by decide)) rHs
     (chainValid_of_ok _ _ _ (by decide)) (by decide) 1 (by decide) "k" 9 (by decide)
-example : snapshotGet rEnv rNode (confOf rEnv (ancestors rEnv 7 3)) 2 "k" 9 = curVer (XV.C01.canon rEnv {} 2) "k" :=
+example : snapshotGet rEnv rNode (confOf rEnv (ancestors rEnv 7 3)) 1 "k" 9 = curVer (XV.C01.canon rEnv {} 2) "k" :=
   snapshot_on_canonical_node rEnv (by decide) rNode {} rPL (fun _ => rfl) (chainValid_of_ok _ _ _ (by decide))
     (poolValid_of_ok _ _ _ (by decide)) rHs (by decide) 2 (by decide) "k" 9 (by decide)
-example : snapshotGet rEnv rThere (confOf rEnv (ancestors rEnv 7 6)) 1 "k" 9 =
-    snapshotGet rEnv rNode (confOf rEnv (ancestors rEnv 7 3)) 1 "k" 9 :=
+example : snapshotGet rEnv rThere (confOf rEnv (ancestors rEnv 7 6)) 0 "k" 9 =
+    snapshotGet rEnv rNode (confOf rEnv (ancestors rEnv 7 3)) 0 "k" 9 :=
   snapshot_common_ancestor_stable rEnv (by decide) rNode 0 6 false {} rPL (by decide) (KVInv_empty rEnv {} rfl rfl)
     (fun _ => rfl) (chainValid_of_ok _ _ _ (by decide)) (poolValid_of_ok _ _ _ (by decide)) rHs
     (chainValid_of_ok _ _ _ (by decide)) (by decide) (by decide) 1 (by decide) (by decide)
     "k" 9 (by decide) (by decide)
+
+-- the same tree in the ledger model of C04: branch A confirmed first (trunk 1 ← 2 ← 3), then branch B, which takes over
+-- at block 6 (trunk switch); the ledger's table after the switch serves the snapshot at the common ancestor
+private def rLedger : XV.Ledger.L :=
+  (XV.Ledger.confirm (XV.Ledger.confirm (XV.Ledger.confirm (XV.Ledger.confirm (XV.Ledger.confirm
+    (XV.Ledger.genesis 1 [10]) 2 1 [(20, false)]).1 3 2 [(21, false)]).1 4 1 [(30, false)]).1 5 4 [(31, false)]).1 6 5
+    [(32, false)]).1
+private theorem rLedgerInv : XV.Ledger.LedgerInv rLedger :=
+  XV.C04.confirm_inv _ 6 5 [(32, false)] (XV.C04.confirm_inv _ 5 4 [(31, false)] (XV.C04.confirm_inv _ 4 1 [(30, false)]
+    (XV.C04.confirm_inv _ 3 2 [(21, false)] (XV.C04.confirm_inv _ 2 1 [(20, false)] (XV.C04.genesis_inv 1 [10])
+      (by decide) (by decide)) (by decide) (by decide)) (by decide) (by decide)) (by decide) (by decide))
+    (by decide) (by decide)
+example : rLedger.tip = 6 ∧ ledgerConfH rLedger 10 = some 0 ∧ ledgerConfH rLedger 30 = some 1 ∧
+    ledgerConfH rLedger 20 = some 1 ∧ ledgerConfH rLedger 32 = some 3 := by decide
+example : snapshotGet rEnv rThere (ledgerConfH rLedger) 0 "k" 9 = curVer (XV.C01.canon rEnv {} 1) "k" :=
+  snapshot_after_walk_ledger rEnv (by decide) rNode 0 6 false {} rLedger rLedgerInv (by unfold LedgerMatches; decide)
+    rPL (by decide) (KVInv_empty rEnv {} rfl rfl) (fun _ => rfl) (chainValid_of_ok _ _ _ (by decide))
+    (poolValid_of_ok _ _ _ (by decide)) rHs (chainValid_of_ok _ _ _ (by decide)) 1 (by decide) "k" 9 (by decide)
 
 -- ================================================================== what is NOT true: a height table of another branch
 
